@@ -134,3 +134,32 @@ def clone_with_dash_C_option_gets_the_notes():
         return kinds, res
     finally:
         net.destroy()
+
+
+def relative_git_dir_in_the_environment_from_a_subdirectory():
+    """D88: `cd <repo>/sub; export GIT_DIR=../.git GIT_WORK_TREE=..` (both relative, as dot-file managers and some IDE integrations set
+    them); an agent adds two lines to sub/f.txt and reports them; `git add f.txt; git commit` => the commit succeeds but gets no note and
+    the lines are a person's: find_repository turns the invocation into `-C <top level>` for its internal git calls while the inherited
+    relative GIT_DIR is then resolved against the top level instead of the start directory (with absolute values, and with
+    GIT_DIR=.git from the root, the result is right)."""
+    import os
+    s = Script("d88", files=1)
+    try:
+        b = [s.line("human") for _ in range(3)]
+        sub = os.path.join(s.w.repo, "sub")
+        os.makedirs(sub, exist_ok=True)
+        s.human_write("sub/f.txt", b); s.commit_all("init")
+        env = {"GIT_DIR": "../.git", "GIT_WORK_TREE": ".."}
+        lines = b + [s.line("S1"), s.line("S1")]
+        p = s.w.ga("checkpoint", "agent-v1", "--hook-input", __import__("json").dumps({"type": "human", "repo_working_dir": s.w.repo, "will_edit_filepaths": ["sub/f.txt"]}), cwd=sub, env=env)
+        s.write("sub/f.txt", lines)
+        p = s.w.ga("checkpoint", "agent-v1", "--hook-input", __import__("json").dumps({"type": "ai_agent", "repo_working_dir": s.w.repo, "edited_filepaths": ["sub/f.txt"],
+                   "transcript": {"messages": [{"type": "user", "text": "please edit"}]}, "agent_name": "tool", "model": "m", "conversation_id": "S1"}), cwd=sub, env=env)
+        s.g("add", "f.txt", repo=sub, env=env)
+        s.g("commit", "-q", "-m", "agent lines, repository located through a relative GIT_DIR", repo=sub, env=env)
+        c = s.head()
+        s.check_notes("w")
+        s.check_commit_exact(c, "w", rule="C12")
+        return s.kinds()
+    finally:
+        s.destroy()
